@@ -110,7 +110,9 @@ REQUIRED = ["CifModel.C12_clean", "CifModel.C12_first_report_is_policy_free", "C
             "CifModel.Props.C12Frames.C12_chars_in_frames_instance",
             "CifModel.Model.Parser.elemsV_plain_at", "CifModel.Model.Parser.plain_blocks_prefix_at",
             "CifModel.Model.Parser.plain_blocks_structure", "CifModel.Lemmas.DefectChars.block_segs_plain_chars",
-            "CifModel.Props.C12_chars_frame_not_allowed", "CifModel.Props.C12Frames.C12_chars_frame_not_allowed_instance"]
+            "CifModel.Props.C12_chars_frame_not_allowed", "CifModel.Props.C12Frames.C12_chars_frame_not_allowed_instance",
+            "CifModel.Model.Parser.DieSeg.nest", "CifModel.Model.Parser.die_null_loop", "CifModel.Props.C12_die_in_frames",
+            "CifModel.Props.C12_die_null_loop", "CifModel.Props.C12Die.C12_die_in_frames_instance"]
 GEN = ["ErrCodes", "CharClass", "ParseConsts"]
 FAMILIES = ["defect"]
 TRUSTED_BASE = [
@@ -146,8 +148,8 @@ PARTIAL = [
     "theorems are available as segments (C12_seg_<class>: 12 classes).  The one combination inside ONE element — a dropped header name and a short "
     "last packet in the same loop — is proved for ALL instances (C12_dup_header_name_partial_packet; before: evaluated instances).  ABORT-ON-ERROR "
     "handler: return value = the class's code, exactly one report, AND the content: what stands in front of the defect, nothing behind it (`DieSeg`, "
-    "Lemmas/ParserDefectDie: missing value, unexpected value, duplicate / invalid item name, unexpected delimiter, unexpected save_, invalid bare "
-    "value; in a block and inside a save frame — the open frame exists, unpruned).  NOT proved: the die-policy content for the classes whose report "
+    "Lemmas/ParserDefectDie: missing value, unexpected value, duplicate / invalid item name, unexpected delimiter, unexpected save_, empty loop header, invalid bare "
+    "value; in a block and inside save frames nested to any depth — every open frame exists, unpruned: DieSeg.nest).  NOT proved: the die-policy content for the classes whose report "
     "is made after part of the construct has been stored (partial packet, duplicate header name, table-key and delimiter classes, frame and block "
     "classes) — for them only return value and log (C03_die_is_first); policies that accept some codes and reject others beyond "
     "C03_prefix_determinism; two defects when the first is one of the scanner-level classes (those are next_token statements, not segments)",
@@ -175,7 +177,7 @@ PARTIAL = [
     "arbitrary accepted text); C12_chars_frame_not_allowed (max_frame_depth = 0, frame-free blocks around: Lemmas/DefectCharsPlain).  NOT carried "
     "to characters: classes that cannot occur in an okC text or are anchored inside a token — invalid table index and text field in key position "
     "(`.tkey` is not a token of Lemmas/LexGlue's `Tk`), C12_unquoted_key / C12_null_key_word (trimTok), CIF_INVALID_BARE_VALUE (no `Tk` presents "
-    "such a value), C12_scanner_report_in_element_position; the die policy for the remaining classes and at depth > 1; the other item-level "
+    "such a value), C12_scanner_report_in_element_position; the die policy for the remaining classes (C12_die_in_frames covers any depth); the other item-level "
     "classes inside frames are one application of C12_chars_items_in_frame to their C12_seg_ theorem each (not written out)",
 ]
 LEVEL_TEXT = ("Theorems about the executable integrated parser model + differential correspondence on planted defects (class x "
